@@ -581,6 +581,44 @@ def rule_g(ctx: Ctx) -> None:
                                                  f"the tree that is parsed back — changes with identify= / pretty= / comments=")
         return hits
 
+    def scan_fquoted(fn: ast.AST, where: str, m: Module | None) -> int:
+        """rendered SQL interpolated between hand-written single quotes of an f-string"""
+        from .c04 import _quoted_interpolations
+
+        hits = 0
+        bindings: dict[str, list[tuple[int, str | None]]] = {}
+        for st in ast.walk(fn):
+            if isinstance(st, ast.Assign) and len(st.targets) == 1 and isinstance(st.targets[0], ast.Name):
+                how = _renders(st.value, True) or ("self.format_args(...)" if isinstance(st.value, ast.Call) and norm(st.value.func) == "self.format_args" else None)
+                bindings.setdefault(st.targets[0].id, []).append((st.lineno, how))
+        MSG_CALLS = ("unsupported", "warning", "error", "debug", "info", "raise_error")
+        parents: dict[int, ast.AST] = {}
+        for x in ast.walk(fn):
+            for ch in ast.iter_child_nodes(x):
+                parents[id(ch)] = x
+
+        def nearest(name: str, line: int) -> str | None:
+            prev = [b for b in bindings.get(name, []) if b[0] <= line]
+            return max(prev)[1] if prev else None
+
+        for js in ast.walk(fn):
+            if not isinstance(js, ast.JoinedStr):
+                continue
+            par = parents.get(id(js))
+            if isinstance(par, ast.Call) and (call_name(par) or "").split(".")[-1] in MSG_CALLS:
+                continue  # a message, not SQL
+            if isinstance(par, ast.Raise) or (isinstance(par, ast.Call) and isinstance(parents.get(id(par)), ast.Raise)):
+                continue
+            for v in _quoted_interpolations(js):
+                how = _renders(v, True) or ("self.format_args(...)" if isinstance(v, ast.Call) and norm(v.func) == "self.format_args" else None) \
+                    or (nearest(v.id, js.lineno) if isinstance(v, ast.Name) else None)
+                if how:
+                    hits += 1
+                    if m is not None:
+                        ctx.fail(m, js, where, js, f"`{norm(js, 80)}` interpolates SQL rendered with the current options ({how}) between hand-written quotes: the string literal's "
+                                                   f"content changes with identify= / pretty= / comments=")
+        return hits
+
     ctx.require(scan(probe, "probe", None, False) == 1, "positive control failed: comparison of rendered text not recognised")
     probe2 = ast.parse("def f(self, e):\n    return self.escape_str(e.name or self.sql(e))\n").body[0]
     ctx.require(scan_quoted(probe2, "probe", None) == 1, "positive control failed: rendered SQL inside escape_str not recognised")
@@ -592,6 +630,8 @@ def rule_g(ctx: Ctx) -> None:
         before = len(ctx.findings) if hasattr(ctx, "findings") else 0
         scan(f.node, f.key, m, True)
         scan_quoted(f.node, f.key, m)
+        if m.name != "sqlglot.generators.python" and ".<locals>." not in f.qualname:
+            scan_fquoted(f.node, f.key, m)
     ctx.count("generator_functions_scanned", n)
     ctx.min_instances("generator_functions_scanned", n, 800)
 
